@@ -15,7 +15,7 @@ KINDMAP = {"bad_any_cast": "K_bad_any_cast", "runtime_error": "K_runtime_error"}
 # (the Equation guard raises eval_error: allowed kind added to VERIF_ALLOWED below)
 
 HEADER = r'''
-#define VERIF_ALLOWED (KBIT(K_bad_any_cast) | KBIT(K_runtime_error) | KBIT(K_eval_error))
+#define VERIF_ALLOWED (KBIT(K_bad_any_cast) | KBIT(K_runtime_error) | KBIT(K_eval_error) | KBIT(K_bad_boxed_cast))
 #include "verif_prelude.h"
 int verif_thrown;
 /* A7: std::type_info is an opaque identity; operator== on type_info objects is identity of
@@ -349,6 +349,41 @@ def build(prop, tier="quick"):
     H("Data_assign", "Data *d; const Data *r;", "Data_assign(d, r)")
     if prop == "C07":
         H("Equation_guard", "Boxed_Value *b; int o;", "Equation_guard(b, o)")
+        # --- Boxed_Value::assign re-seats the shared Data of the left-hand side: every holder of that value then denotes the new
+        # one.  The two C++ functions registered as `=` that call it (bootstrap.hpp: ptr_assign<Type> for function objects,
+        # unknown_assign for undefined values) may do so only for an undefined or non-const left-hand side.
+        bs = chai2c.Header("include/chaiscript/dispatchkit/bootstrap.hpp")
+        c = C("verif_Boxed_Value_assign")
+        kb.emit_stub("void verif_Boxed_Value_assign(Boxed_Value *lhs)", c.fn, "verif_Boxed_Value_assign")
+        kb.functions.append("verif_Boxed_Value_assign (stub: its precondition IS the property clause - only an undefined or non-const value is re-seated)")
+        isl = bv.slice_function("bool is_type(const Type_Info &ti) const noexcept")
+        ir = base_rules()
+        ir.add("R1.is_type", r"\bm_data->m_type_info\.bare_equal\(ti\)", "Type_Info_bare_equal(&self->m_data->m_type_info, ti)", min_fire=1)
+        kb.emit_function("bool Boxed_Value_is_type(const Boxed_Value *self, const Type_Info *ti)", isl, ir, [], {}, "Boxed_Value_is_type")
+        ar = base_rules()
+        ar.add("R2.undef", r"\blhs\.is_undef\(\)", "Type_Info_is_undef(&lhs->m_data->m_type_info)", min_fire=1)
+        ar.add("R2.gti_const", r"\blhs\.get_type_info\(\)\.is_const\(\)", "Type_Info_is_const(Boxed_Value_get_type_info(lhs))")
+        ar.add("R2.is_const", r"\blhs\.is_const\(\)", "Boxed_Value_is_const(lhs)")
+        ar.add("R2.gti_bare", r"\blhs\.get_type_info\(\)\.bare_equal\(chaiscript::detail::Get_Type_Info<Type>::get\(\)\)", "Type_Info_bare_equal(Boxed_Value_get_type_info(lhs), type_ti)")
+        ar.add("R2.is_type", r"\blhs\.is_type\(chaiscript::detail::Get_Type_Info<Type>::get\(\)\)", "Boxed_Value_is_type(lhs, type_ti)")
+        ar.add("R9.assign1", r"\blhs\.assign\(Boxed_Value\(rhs\)\);", "verif_Boxed_Value_assign(lhs);")
+        ar.add("R9.assign2", r"\breturn \(lhs\.assign\(rhs\)\);", "{ verif_Boxed_Value_assign(lhs); return; }")
+        ar.add("R9.ret", r"\breturn lhs;", "return;")
+        bthr = throw_rule({"bad_boxed_cast": "K_bad_boxed_cast"}, "include/chaiscript/dispatchkit/bootstrap.hpp")
+        for anchor_, csig, cname in (
+                ("Boxed_Value ptr_assign(Boxed_Value lhs, const std::shared_ptr<Type> &rhs)", "void ptr_assign(Boxed_Value *lhs, const Type_Info *type_ti)", "ptr_assign"),
+                ("static Boxed_Value unknown_assign(Boxed_Value lhs, Boxed_Value rhs)", "void unknown_assign(Boxed_Value *lhs)", "unknown_assign")):
+            sl = bs.slice_function(anchor_)
+            c = C(cname)
+
+            def apre(b, cname=cname):
+                b2, n = bthr(b, cname)
+                if "assign(" not in b2:
+                    raise ExtractionBreak("%s no longer calls Boxed_Value::assign" % cname)
+                return b2
+            kb.emit_function(csig, sl, ar, c.fn, c.loops, cname, pre=apre)
+        H("ptr_assign", "Boxed_Value *b; Type_Info *t;", "ptr_assign(b, t)", replace=["verif_Boxed_Value_assign"])
+        H("unknown_assign", "Boxed_Value *b;", "unknown_assign(b)", replace=["verif_Boxed_Value_assign"])
     if tier == "thorough" and prop == "C07":
         import engine_probe
         rc, cases, err = engine_probe.run("c07")
